@@ -1,6 +1,7 @@
 import XzVerif.Proofs.Segment
 import XzVerif.Proofs.Tables
 import XzVerif.Proofs.XzRoundTrip
+import XzVerif.Proofs.Select
 /-
   C01 — xz write→read round trip is lossless for every input and configuration.
 
@@ -23,11 +24,22 @@ import XzVerif.Proofs.XzRoundTrip
     as laid out by the model emitter are read back by the reader model (Go rules and strict
     rules) to exactly the concatenated block contents, with a clean end.
 
-  Not proved (hence `_partial` in the claim): (1) that the Go match finders only propose
-  applicable operations (`OpsOk`) — tied by the correspondence check, which re-encodes the
-  operations parsed from real output and compares bytes, and by the direct round-trip oracle;
-  (2) the `opLenMargin` question (`OpsFit`, DESIGN.md §7); (3) LZMA2 chunk framing and the .xz
-  container around the segments (see Props/C08, C16, C04 and the correspondence check).
+  * `C01_hashtable4_proposals_applicable`, `C01_bintree_proposals_applicable`: **whatever candidate distances
+    the search structures deliver**, what `hashTable.NextOp` / `binTree.NextOp` propose is applicable (literal =
+    next byte; match inside the dictionary window and the look-ahead, codable length, bytes really repeat) —
+    proved for the ring-level model of their candidate verification (Model/Select.lean: `DictLen` guard, one-byte
+    quick reject, `buffer.matchLen` on the circular buffer), which is tied to the real finders on every run
+    (real `NextOp` = model on the same candidates and the same ring state, 200 000+ proposals quick).
+  * `C01_bintree_no_index_panic`, `C01_hashtable4_no_index_panic`: the quick-reject index never leaves the
+    array — for BinaryTree because it wraps at both ends, for HashTable4 because `matchLen` stops at the
+    physical end of the array and the candidates come in ascending distance.
+  * The LZMA2 writer inside each block: Props/C08 (no call fails; output decodes to the input for every call
+    history and every applicable match finder, also stateful ones: `MatcherInv`).
+
+  Not proved (hence `_partial` in the claim): the xz.Writer assembly around the blocks (header, block header,
+  padding, check, index, footer) is tied (byte-identical re-encoding, strict reference decoder, block sizes
+  predicted), not proved; the BinaryTree search structure is not modelled (its proposals are covered by the
+  theorem above for any candidate list); model = Go is the correspondence.
 -/
 namespace Props.C01
 open Lzma Rc
@@ -74,6 +86,35 @@ theorem C01_tables :
   ⟨Proofs.Tables.updLit_table, Proofs.Tables.updMatch_table, Proofs.Tables.updRep_table,
    Proofs.Tables.updShortRep_table, Proofs.Tables.lenState_table, Proofs.Tables.probInc_table,
    Proofs.Tables.probDec_table⟩
+
+/-- HashTable4: any candidate list yields an applicable proposal -/
+theorem C01_hashtable4_proposals_applicable (d : Ring.EDict) (a : Ring.Abs) (dc bs : Nat) (h : d.Rel a dc bs)
+    (cands : List Nat) (rep0 : Nat) (g : W2.GoOp) (hr : Sel.nextOpHT d cands rep0 = .op g) :
+    Sel.OpOkAbs a dc rep0 g :=
+  Sel.nextOpHT_sound d a dc bs h cands rep0 g hr
+
+/-- BinaryTree: any candidate lists (distances ≥ 1; the tree delivers distances ≥ 4) yield an applicable proposal -/
+theorem C01_bintree_proposals_applicable (d : Ring.EDict) (a : Ring.Abs) (dc bs : Nat) (h : d.Rel a dc bs)
+    (special : Bool) (ca cb : List Nat) (hca : ∀ x ∈ ca, 1 ≤ x) (hcb : ∀ x ∈ cb, 1 ≤ x) (rep0 : Nat) (g : W2.GoOp)
+    (hr : Sel.nextOpBT d special ca cb rep0 = .op g) : Sel.OpOkAbs a dc rep0 g :=
+  Sel.nextOpBT_sound d a dc bs h special ca cb rep0 g hca hcb hr
+
+theorem C01_bintree_no_index_panic (d : Ring.EDict) (a : Ring.Abs) (dc bs : Nat) (h : d.Rel a dc bs)
+    (hbuf : a.r < a.W.length) (special : Bool) (ca cb : List Nat) (rep0 : Nat) :
+    Sel.nextOpBT d special ca cb rep0 ≠ .panic :=
+  Sel.nextOpBT_no_panic d a dc bs h hbuf special ca cb rep0
+
+theorem C01_hashtable4_no_index_panic (d : Ring.EDict) (a : Ring.Abs) (dc bs : Nat) (h : d.Rel a dc bs)
+    (hbuf : a.r < a.W.length) (cands : List Nat)
+    (hasc : ((cands.filter (fun x => x > 8))).Pairwise (· < ·)) (rep0 : Nat) :
+    Sel.nextOpHT d cands rep0 ≠ .panic :=
+  Sel.nextOpHT_no_panic d a dc bs h hbuf cands hasc rep0
+
+/-- an abstractly applicable proposal is what the Writer2 theorems ask of a match finder (`W2.GoOpOk`) -/
+theorem C01_applicable_is_goOpOk (a : Ring.Abs) (c : W2.Cfg) (hist look : ByteArray) (s : Lzma.St) (g : W2.GoOp)
+    (hh : hist.data.toList = a.W.take a.r) (hl : look.data.toList = a.W.drop a.r) (hr : a.r ≤ a.W.length)
+    (hok : Sel.OpOkAbs a c.dictCap s.r0 g) : W2.GoOpOk c hist look s g :=
+  Sel.opOkAbs_goOpOk a c hist look s g hh hl hr hok
 
 /-- the fresh probability table satisfies the hypothesis of the round-trip theorem -/
 theorem C01_init_table_ok (lc lp : Nat) : (initTable lc lp).ok := by
